@@ -378,7 +378,8 @@ func runC02(c *Ctx) {
 				}
 				nSites++
 				isLenOfScheds := func(v ssa.Value) (ssa.Instruction, bool) {
-					c2, ok := v.(*ssa.Call)
+					// (read in a helper and handed over as a result / parameter: where it was computed)
+					c2, ok := Resolve(v).(*ssa.Call)
 					if !ok || !IsBuiltinCall(c2, "len") {
 						return nil, false
 					}
@@ -395,7 +396,13 @@ func runC02(c *Ctx) {
 					if !okx || !oky {
 						continue
 					}
-					wx, wy := ls.Before[lx].W, ls.Before[ly].W
+					lsOf := func(in ssa.Instruction) *Locksets {
+						if in.Parent() == g {
+							return ls
+						}
+						return NewLocksets(in.Parent(), isMu)
+					}
+					wx, wy := lsOf(lx).Before[lx].W, lsOf(ly).Before[ly].W
 					switch f.Op {
 					case token.EQL:
 						if wx != wy {
@@ -475,7 +482,7 @@ func runC02(c *Ctx) {
 						fv, _ := FieldOf(ia.X)
 						return fv != nil && fv.Name() == "leftAfter"
 					}
-					if !DerivesAny(side, false, isLA) {
+					if !DerivesAny(side, false, isLA) && !DerivesAny(Resolve(side), false, isLA) {
 						continue
 					}
 					n++
